@@ -227,6 +227,25 @@ func (e *Env) resolver(typeName string, fd *model.FieldDef) graphql.FieldResolve
 	}
 }
 
+// subscriber returns the instrumented Subscribe function of a subscription
+// root field: it logs a "subscribe" event (with the argument map it received)
+// and answers with a one-shot payload that becomes the root value of the
+// single response event.
+func (e *Env) subscriber(typeName string, fd *model.FieldDef) graphql.FieldResolveFn {
+	return func(p graphql.ResolveParams) (interface{}, error) {
+		path := PathString(p.Info.Path)
+		if !e.Quiet {
+			pc := p
+			var args map[string]interface{}
+			if p.Args != nil {
+				args = DeepCopy(p.Args).(map[string]interface{})
+			}
+			e.Log.add(Event{Kind: "subscribe", Path: path, Field: fd.Name, ParentType: typeName, Args: args, SourceID: sourceID(p.Source), Params: &pc, Ctx: p.Context})
+		}
+		return map[string]interface{}{"__root": "subscription-event"}, nil
+	}
+}
+
 func (e *Env) thunk(path string, f func() (interface{}, error)) func() (interface{}, error) {
 	return func() (interface{}, error) {
 		if !e.Quiet {
@@ -365,6 +384,9 @@ func Build(m *model.Schema, seed uint64) (*Env, error) {
 			}
 			if withResolvers {
 				gf.Resolve = e.resolver(td.Name, f)
+				if td.Name == m.Subscription && m.Subscription != "" {
+					gf.Subscribe = e.subscriber(td.Name, f)
+				}
 			}
 			out[f.Name] = gf
 		}
